@@ -27,6 +27,11 @@ LLVM_ATTRS = ("+v8.8a,+neon,+fp-armv8,+fullfp16,+fp16fml,+crypto,+aes,+sha2,+sha
 
 
 SYSOP_ALIASES = {"at", "dc", "ic", "tlbi"}
+# AsmJit names for which no case can be accepted, with the reason (regular expressions); any other name without an accepted
+# case makes the run inconclusive
+NEVER_EXERCISED_OK = [
+    # (bc.<cond> was refused for every condition and its opcode lacked bit 30: repaired in the repo, d4423b4 + 6eff0a0)
+]
 # the architecture lets an assembler take the unscaled instruction when the scaled one cannot hold the offset
 UNSCALED = {"prfm": "prfum", "ldr": "ldur", "str": "stur", "ldrb": "ldurb", "ldrh": "ldurh", "ldrsb": "ldursb", "ldrsh": "ldursh",
             "ldrsw": "ldursw", "strb": "sturb", "strh": "sturh"}
@@ -181,6 +186,17 @@ def template_check(rec, word, fields):
             if (got ^ x) & ((1 << w) - 1):
                 return "field", "move-wide hw/imm16 decode to %#x, wanted %#x" % (got & ((1 << w) - 1), x)
             continue
+        if name == "@modimm":
+            kind, want = val
+            op, cmode = (word >> 29) & 1, (word >> 12) & 15
+            imm8 = (((word >> 16) & 7) << 5) | ((word >> 5) & 31)
+            cls = a64text.modimm_class(op, cmode)
+            got = a64text.modimm_result(op, cmode, imm8)
+            allowed = ("movi", "mvni") if kind in ("movi", "mvni") else (kind,)
+            if cls not in allowed or got != want:
+                return "field", "modified immediate op:cmode:imm8=%d:%s:%#x is %s writing/applying %s per 64-bit lane, wanted %s %#018x" % (
+                    op, format(cmode, "04b"), imm8, cls, "%#018x" % got if got is not None else None, kind, want)
+            continue
         if name == "@fp8":
             f = rec["fields"]
             if "imm" in f and f["imm"]["bits"] == 8:
@@ -285,6 +301,10 @@ def site_key(labels, enc, opidx, what, mnemonic=None):
     ls = labels.get(enc, set())
     if what == "arrangement-view" and mnemonic:
         return "a64:%s:%s:op%d-arrangement-view-unchecked" % (enc, mnemonic, opidx)
+    if what == "inst-id-range":
+        return "a64:inst-id-range-unchecked"
+    if what in a64gen.SHAPE_WHATS and mnemonic:
+        return "a64:%s:%s:%s" % (what, enc, mnemonic)
     if what == "reg-id" and opidx == 2 and "EmitOp_Rd0_Rn5_Rm16" in ls:
         return "a64:EmitOp_Rd0_Rn5_Rm16:op2-reg-id-unchecked"
     if what in ("base-zr", "base-reg-id", "pre-index-not-allowed") and "EmitOp_MemBaseIndex_Rn5_Rm16" in ls:
@@ -294,7 +314,50 @@ def site_key(labels, enc, opidx, what, mnemonic=None):
     return "a64:%s:op%d-%s-unchecked" % (enc, opidx, what)
 
 
-def run_shard(exe, cases, recs):
+def driver_names(exe):
+    """-> (names the public lookup finds, names it does not find, {name: [(id, encoding class)]}, id count)"""
+    rc, out, err = common.run_child([exe, "--names", "2"], timeout=300)
+    known, lookup_miss, ids, count = set(), [], {}, 0
+    for ln in out.decode().splitlines():
+        p = ln.split()
+        if not p:
+            continue
+        if p[0] == "#count":
+            count = int(p[1])
+            continue
+        api = int(p[-1].split("=")[1])
+        lst = [tuple(int(x) for x in q.split(":")) for q in p[1:-1]]
+        if api not in [i for i, _ in lst]:
+            lookup_miss.append(p[0])    # a name the public lookup does not find is unknown to this check (no fallback)
+        else:
+            known.add(p[0])
+            ids[p[0]] = lst
+    if len(known) < 100 or not count:
+        raise common.HarnessError("driver lists only %d instruction names" % len(known))
+    return known, lookup_miss, ids, count
+
+
+NEW_DIMS = ("imm_hi32", "modified_immediate", "shape_level", "arrangement_x_shift_limit", "system_names")
+
+
+def dims_of(c):
+    """which of the dimensions added in round 11 a case belongs to"""
+    out = []
+    v = c["vclass"]
+    if c["what"] == "imm-hi32":
+        out.append("imm_hi32")
+    if ".modimm=" in v:
+        out.append("modified_immediate")
+    if c["what"] in a64gen.SHAPE_WHATS:
+        out.append("shape_level")
+    if v.startswith("arr=") and "*" in v:
+        out.append("arrangement_x_shift_limit")
+    if c.get("alt_text") is not None or (".imm=" in v and c["line"].split(" ", 1)[0] in ("at", "dc", "ic", "tlbi", "mrs", "msr")):
+        out.append("system_names")
+    return out
+
+
+def run_shard(exe, cases, recs, extra=()):
     """executes the cases and attaches r (driver record), llvm (bytes|None), dis (text|None per word), dis_llvm"""
     d = _tmpdir()
     try:
@@ -302,7 +365,7 @@ def run_shard(exe, cases, recs):
         with open(path, "w") as fh:
             for i, c in enumerate(cases):
                 fh.write("%d %s\n" % (i, c["line"]))
-        rc, out, err = common.run_child([exe, "--cases", path], timeout=1800)
+        rc, out, err = common.run_child([exe, "--cases", path] + list(extra), timeout=1800)
         rep = common.sanitizer_report(err)
         if rep:
             return {"sanitizer": rep, "stderr": err[-3000:]}
@@ -376,31 +439,36 @@ def sig(rec):
 
 def judge_refusals(chk, tier, scale=1.0):
     """C14's AArch64 half: every generated case whose operands are unencodable (status 'bad': register id / lane / shift /
-    immediate / offset / alignment out of the form's range, pairwise constraints included) must be refused with an error,
-    the handler called once, and nothing appended or created. Same generator, driver and LLVM cross-examination as C02
-    (a 'bad' marking that LLVM refutes by assembling the text is no verdict). Returns counters."""
+    immediate / offset / alignment out of the form's range, pairwise constraints included; instruction ids beyond the
+    table) must be refused with an error, the handler called once, and nothing appended or created. Same generator, driver
+    and LLVM cross-examination as C02 (a 'bad' marking that LLVM refutes by assembling the text is no verdict).
+    Every call is made with the one-shot state armed (inline comment; options or an extra register on two calls of three):
+    it must be clear after the call, failed or not. Every second shard runs with a THROWING error handler. After every
+    failed call a probe instruction is emitted and compared with the architectural word (the emitter must go on producing
+    what a fresh one would). A stride of the refused cases goes through a fresh a64::Builder (probe + case, finalize): the
+    error must surface at emit() or finalize(), exactly one handler call, only the probe in the section. Returns counters."""
     exe = build.build_driver("drv_emit_a64", "asan")
     recs = isadb.a64_forms()
     encn = encoding_names()
     labels = emit_labels()
-    rc, out, err = common.run_child([exe, "--names", "1"], timeout=300)
-    known = set()
-    for ln in out.decode().splitlines():
-        p = ln.split()
-        if p and int(p[-1].split("=")[1]) in [int(x) for x in p[1:-1]]:
-            known.add(p[0])
-    if len(known) < 100:
-        raise common.HarnessError("driver lists only %d instruction names" % len(known))
+    known, _, name_ids, id_count = driver_names(exe)
     nrandom = max(1, int((300 if tier == "thorough" else 8) * scale))
-    cases, _ = a64gen.generate(recs, chk.seed, tier, known, nrandom=nrandom)
-    cases = [c for c in cases if c["status"] == "bad"]
+    cases, _ = a64gen.generate(recs, chk.seed, tier, known, nrandom=nrandom, shape_info={"ids": name_ids, "count": id_count})
+    # operand kinds are kept (the typed C++ overloads enforce them): of the shape-level cases only the instruction ids count
+    cases = [c for c in cases if c["status"] == "bad" and (c["what"] not in a64gen.SHAPE_WHATS or c["what"] == "inst-id-range")]
     if not cases:
         raise common.HarnessError("generator produced no unencodable AArch64 cases")
-    nshards = 16 if len(cases) > 2000 else 1
-    results = common.parallel_map(lambda sh: run_shard(exe, sh, recs), [cases[i::nshards] for i in range(nshards)])
+    nshards = 16 if len(cases) > 2000 else 2
+    shards = [cases[i::nshards] for i in range(nshards)]
+
+    def extra_of(i):
+        return ["--arm", "1", "--probe", "1"] + (["--handler", "throw"] if i % 2 else [])
+    results = common.parallel_map(lambda t: run_shard(exe, t[1], recs, extra_of(t[0])), list(enumerate(shards)))
     cnt = collections.Counter()
     kinds = set()
-    for res in results:
+    refused_lines = []
+    for si, res in enumerate(results):
+        throwing = bool(si % 2)
         if "sanitizer" in res:
             rep = res["sanitizer"]
             top = next((f for f in rep["frames"] if "asmjit" in f), rep["frames"][0] if rep["frames"] else "?")
@@ -410,15 +478,36 @@ def judge_refusals(chk, tier, scale=1.0):
             r = c["r"]
             rec = recs[c["rec"]]
             enc = encn.get(r["enc"], str(r["enc"]))
-            replay = {"a64cases": [{k: c.get(k) for k in ("rec", "vclass", "status", "what", "opidx", "line", "text")}]}
+            replay = {"a64cases": [{k: c.get(k) for k in ("rec", "vclass", "status", "what", "opidx", "line", "text")}], "driver_args": extra_of(si)}
             cnt["a64_unencodable_cases"] += 1
             kinds.add((enc, c["what"]))
+            if r["os"] >= 0:
+                cnt["a64_calls_with_one_shot_state_armed"] += 1
+                if r["os"] != 0:
+                    left = [n for b, n in ((1, "options"), (2, "extra register"), (4, "inline comment")) if r["os"] & b]
+                    chk.violation("a64:%s-call:one-shot-state-left:%s" % ("failed" if r["err"] else "accepted", enc),
+                                  "%s -> error %d: %s still set after the call" % (c["line"], r["err"], ", ".join(left)), replay)
             if r["err"] != 0:
                 cnt["a64_refused"] += 1
-                if r["bytes"] or r["df"] or r["dr"]:
-                    chk.violation("a64:failed-call:appended-or-created:%s" % enc, "%s -> error %d but bytes=%s fixups+%d relocations+%d" % (c["line"], r["err"], r["bytes"], r["df"], r["dr"]), replay)
+                if c["what"] == "inst-id-range":
+                    cnt["a64_instruction_ids_beyond_the_table"] += 1
+                if throwing:
+                    cnt["a64_refused_with_throwing_handler"] += 1
+                    if not r["threw"]:
+                        chk.violation("a64:failed-call:throwing-handler-not-reached:%s" % enc, "%s -> error %d but the throwing handler saw %d calls and nothing was thrown" % (c["line"], r["err"], r["h"]), replay)
+                if r["bytes"] or r["df"] or r["dr"] or r["dl"] or r.get("shrunk"):
+                    chk.violation("a64:failed-call:appended-or-created:%s" % enc, "%s -> error %d but bytes=%s fixups+%d relocations+%d labels+%d%s" %
+                                  (c["line"], r["err"], r["bytes"], r["df"], r["dr"], r["dl"], " (buffer shrank)" if r.get("shrunk") else ""), replay)
                 if r["h"] != 1:
                     chk.violation("a64:failed-call:handler-called-%d-times" % r["h"], "%s -> error %d, handler called %d times" % (c["line"], r["err"], r["h"]), replay)
+                if r["probe"] >= 0:
+                    cnt["a64_probes_after_failed_call"] += 1
+                    if r["probe"] != 0:
+                        chk.violation("a64:failed-call:next-instruction-differs:%s" % enc, "%s -> error %d (%s handler); `add x1, x2, x3` emitted right after it is not the word a fresh "
+                                      "emitter produces (or was refused / moved the cursor / called the handler)" % (c["line"], r["err"], "throwing" if throwing else "returning"), replay)
+                # (labels belong to the shared holder and pc-relative targets to the position in it: not for a fresh Builder)
+                if not any(t.split(":")[0] in ("L", "ML", "MLX", "A", "AP", "MA") for t in c["line"].split()[2:]):
+                    refused_lines.append(c)
                 continue
             if c["llvm"] is not None:
                 cnt["a64_marking_refuted_by_llvm"] += 1
@@ -426,7 +515,56 @@ def judge_refusals(chk, tier, scale=1.0):
             dtxt = c["dis"][0] if c["dis"] else None
             chk.violation(site_key(labels, enc, c["opidx"], c["what"], recs[c["rec"]]["name"].split(".")[0]),
                           "%s [%s] is unencodable (%s) but emit() returned kOk and appended %s (LLVM reads that as `%s`)" % (c["line"], sig(rec), c["what"], r["bytes"], dtxt), replay)
+
+    # the Builder path: a64 has no operand validator, so the error of an unencodable node surfaces when it is serialized
+    want = len(refused_lines) if tier == "thorough" else max(200, int(3000 * scale))
+    step = max(1, len(refused_lines) // max(1, want))
+    sample = refused_lines[::step]
+    if sample:
+        d = _tmpdir()
+        try:
+            def run_b(sh):
+                path = os.path.join(d, "b%d.txt" % sh[0])
+                with open(path, "w") as fh:
+                    for i, c in enumerate(sh[1]):
+                        fh.write("%d %s\n" % (i, c["line"]))
+                rc, out, err = common.run_child([exe, "--cases", path, "--emitter", "builder"], timeout=1800)
+                return sh[1], out, err
+            nb = 16 if len(sample) > 500 else 1
+            for sh, out, err in common.parallel_map(run_b, [(i, sample[i::nb]) for i in range(nb)]):
+                rep = common.sanitizer_report(err)
+                if rep:
+                    top = next((f for f in rep["frames"] if "asmjit" in f), rep["frames"][0] if rep["frames"] else "?")
+                    chk.violation("sanitizer:builder:%s:%s" % (rep["kind"].split(" on ")[0][:60], top.split("(")[0][:80]), "sanitizer report in drv_emit_a64 --emitter builder: %s %s" % (rep["kind"], rep["frames"][:5]), None)
+                    continue
+                lines = out.decode().splitlines()
+                if len(lines) != len(sh):
+                    raise common.HarnessError("drv_emit_a64 --emitter builder returned %d records for %d cases: %s" % (len(lines), len(sh), err[-300:]))
+                for c, ln in zip(sh, lines):
+                    r = json.loads(ln)
+                    enc = encn.get(r["enc"], str(r["enc"]))
+                    replay = {"a64cases": [{k: c.get(k) for k in ("rec", "vclass", "status", "what", "opidx", "line", "text")}], "driver_args": ["--emitter", "builder"]}
+                    cnt["a64_builder_finalize_cases"] += 1
+                    if r["e0"] != 0:
+                        raise common.HarnessError("Builder refused the probe instruction")
+                    if r["err"] == 0 and r["ferr"] == 0:
+                        chk.violation("a64:builder:unencodable-node-finalized:%s" % enc, "%s: refused by a64::Assembler, but a64::Builder::emit() and finalize() both returned kOk (section size %d)" % (c["line"], r["size"]), replay)
+                        continue
+                    cnt["a64_builder_error_at_%s" % ("emit" if r["err"] else "finalize")] += 1
+                    if r["h"] != 1:
+                        chk.violation("a64:builder:handler-called-%d-times" % r["h"], "%s through a64::Builder: emit error %d, finalize error %d, handler called %d times (%d of them in emit())" %
+                                      (c["line"], r["err"], r["ferr"], r["h"], r["hemit"]), replay)
+                    if r["ferr"] and (r["size"] != 4 or r["probe"] != 0):
+                        chk.violation("a64:builder:failed-finalize-appended:%s" % enc, "%s through a64::Builder: finalize error %d left %d bytes in .text (the valid instruction before the node is 4 bytes)%s" %
+                                      (c["line"], r["ferr"], r["size"], "" if r["probe"] == 0 else "; its word is not `add x1, x2, x3`"), replay)
+        finally:
+            shutil.rmtree(d, ignore_errors=True)
     cnt["a64_unencodable_kinds"] = len(kinds)
+    if scale >= 1.0 and not chk.violations:
+        for k in ("a64_calls_with_one_shot_state_armed", "a64_refused_with_throwing_handler", "a64_probes_after_failed_call", "a64_builder_finalize_cases",
+                  "a64_instruction_ids_beyond_the_table"):
+            if not cnt[k]:
+                raise common.HarnessError("AArch64 refusal monitor observed nothing for %s" % k)
     return dict(cnt)
 
 
@@ -437,19 +575,7 @@ def run(tier, args):
     encn = encoding_names()
     labels = emit_labels()
 
-    rc, out, err = common.run_child([exe, "--names", "1"], timeout=300)
-    known, lookup_miss = set(), []
-    for ln in out.decode().splitlines():
-        p = ln.split()
-        if not p:
-            continue
-        api = int(p[-1].split("=")[1])
-        if api not in [int(x) for x in p[1:-1]]:
-            lookup_miss.append(p[0])    # a name the public lookup does not find is unknown to this check (no fallback)
-        else:
-            known.add(p[0])
-    if len(known) < 100:
-        raise common.HarnessError("driver lists only %d instruction names" % len(known))
+    known, lookup_miss, name_ids, id_count = driver_names(exe)
 
     if args.replay:
         rp = json.load(open(args.replay))
@@ -459,7 +585,7 @@ def run(tier, args):
         gstats = {"forms": 0, "unsupported": {}, "unsupported_records": 0, "not_in_asmjit": 0}
     else:
         nrandom = max(1, int((300 if tier == "thorough" else 8) * args.scale))
-        cases, gstats = a64gen.generate(recs, chk.seed, tier, known, nrandom=nrandom)
+        cases, gstats = a64gen.generate(recs, chk.seed, tier, known, nrandom=nrandom, shape_info={"ids": name_ids, "count": id_count})
         if args.scale < 1.0:
             keep = max(1, int(len(cases) * args.scale))
             step = len(cases) / float(keep)
@@ -474,8 +600,10 @@ def run(tier, args):
     cnt = {k: 0 for k in ("accepted", "refused", "refused_as_expected", "refused_valid", "accepted_but_unencodable", "marking_refuted",
                           "llvm_equal", "llvm_alt_encoding", "llvm_mismatch", "llvm_no_verdict", "llvm_unknown_encoding",
                           "disasm_confirmed", "disasm_alias_unresolved", "sysop_no_text_verdict", "sysreg_name_not_checkable_in_this_direction", "template_ok", "template_na", "template_mismatch_db",
-                          "template_mismatch_unresolved", "mov_sequences", "handler_mismatch", "lookup_miss_cases", "no_text")}
+                          "template_mismatch_unresolved", "mov_sequences", "handler_mismatch", "lookup_miss_cases", "no_text", "modimm_equivalent_encoding")}
     distinct = set()
+    dim_cases, dim_refused, dim_verified = collections.Counter(), collections.Counter(), collections.Counter()
+    twins, twin_kinds, accepted_names = 0, set(), set()
     accepted_recs, llvm_unknown_recs, refused_valid_recs = set(), set(), set()
     by_class = {}
     samples = []
@@ -503,6 +631,13 @@ def run(tier, args):
             mn = rec["name"].split(".")[0]
             b = bytes.fromhex(r["bytes"])
             acc = r["err"] == 0
+            dl = dims_of(c)
+            for d in dl:
+                dim_cases[d] += 1
+            twins += r.get("bldn", 0)
+            if r.get("bld"):
+                chk.violation("a64:operand-builder:%s" % r.get("bldw"), "%s: the operand made by %s differs from the one made with the raw constructors (make_r32 / make_v128 + "
+                              "set_element_type / set_element_index / Mem(base, off) + make_pre_index ...) in %d of %d operands" % (c["line"], r.get("bldw"), r["bld"], r["bldn"]), replay_of(c))
             cnt["lookup_miss_cases"] += r["miss"]
             if (r["err"] != 0) != (r["h"] != 0):
                 cnt["handler_mismatch"] += 1
@@ -516,6 +651,8 @@ def run(tier, args):
                 cnt["refused"] += 1
                 if c["status"] == "bad":
                     cnt["refused_as_expected"] += 1
+                    for d in dl:
+                        dim_refused[d] += 1
                 elif c["status"] == "ok":
                     cnt["refused_valid"] += 1
                     refused_valid_recs.add(c["rec"])
@@ -523,6 +660,8 @@ def run(tier, args):
 
             cnt["accepted"] += 1
             accepted_recs.add(c["rec"])
+            if c["status"] != "bad":
+                accepted_names.add(mn)
             word = int.from_bytes(b[:4], "little")
             llvm = c["llvm"]
             if c["text"] is None:
@@ -537,7 +676,7 @@ def run(tier, args):
                 refuted = True
                 if len(notes_refuted) < 40:
                     notes_refuted.append("%s | %s | %s" % (sig(rec), c["vclass"], c["text"]))
-                if c["what"] not in ("scalar-view", "arrangement-view"):   # another record of the same instruction covers that view: no annotation is wrong
+                if c["what"] not in ("scalar-view", "arrangement-view") + a64gen.SHAPE_WHATS:   # another record of the same instruction covers that view: no annotation is wrong
                     db_annot.setdefault("a64db:annot:" + rec_id(rec), []).append("%s: `%s` is encodable (LLVM: %s)" % (c["vclass"], c["text"], llvm.hex()))
             if c["status"] == "bad" and not refuted:
                 cnt["accepted_but_unencodable"] += 1
@@ -592,6 +731,14 @@ def run(tier, args):
                     if da is not None and dl is not None and canon(da) == canon(dl):
                         lv = "alt"
                         cnt["llvm_alt_encoding"] += 1
+                    elif tv == "ok" and len(llvm) == 4 and any(k == "@modimm" for k, _, _ in c["fields"]) and \
+                            template_check(rec, int.from_bytes(llvm, "little"), c["fields"])[0] == "ok":
+                        # AsmJit documents that it picks a smaller element size for a replicated pattern (movi v0.2s, #0 ->
+                        # movi v0.8b, #0): both words pass the same check (fixed bits, Vd, and op:cmode:imm8 expands to the
+                        # requested lane value), i.e. they write the same register value
+                        lv = "alt"
+                        cnt["llvm_alt_encoding"] += 1
+                        cnt["modimm_equivalent_encoding"] += 1
                     else:
                         lv = "mismatch"
                         cnt["llvm_mismatch"] += 1
@@ -655,6 +802,9 @@ def run(tier, args):
                     chk.violation("a64:%s:%s:template-mismatch" % (enc, mn),
                                   "%s [%s, %s]: %s appended, %s (LLVM verdict: %s)" % (c["line"], sig(rec), c["vclass"], r["bytes"], tdetail, lv), replay_of(c))
                     continue
+            if (lv in ("equal", "alt", "disasm") and tv in ("ok", "na")) or (lv is None and tv == "ok"):
+                for d in dl:
+                    dim_verified[d] += 1
             if lv == "equal" and tv == "ok":
                 israndom = c["vclass"].startswith("random")
                 distinct.add((c["rec"], c["line"] if israndom else c["vclass"]))
@@ -670,6 +820,20 @@ def run(tier, args):
         chk.violation(key, "db/isa_aarch64.json record `%s`: operand annotation (SP/ZR, offset scaling ...) marks as unencodable what LLVM assembles: %s" %
                       (key.split(":", 2)[2], "; ".join(db_annot[key][:3])), None)
 
+    never = sorted(known - accepted_names)
+    full = (not args.replay) and args.scale >= 1.0
+    if full and not chk.violations:
+        unexplained = [n for n in never if not any(re.match(pat, n) for pat in NEVER_EXERCISED_OK)]
+        if unexplained:
+            raise common.HarnessError("AsmJit instruction names without a single accepted case (no database record / no generator support): %s" % unexplained[:20])
+        for d in NEW_DIMS:
+            need_refused = d in ("imm_hi32", "modified_immediate", "shape_level", "arrangement_x_shift_limit")
+            need_verified = d in ("modified_immediate", "arrangement_x_shift_limit", "system_names")
+            if (need_refused and not dim_refused[d]) or (need_verified and not dim_verified[d]):
+                raise common.HarnessError("dimension %s observed nothing (cases %d, refused %d, verified %d)" % (d, dim_cases[d], dim_refused[d], dim_verified[d]))
+        if not twins:
+            raise common.HarnessError("no operand was compared with its public-builder twin")
+
     if notes_alias:
         chk.note("LLVM rejects the text but reads AsmJit's word under another mnemonic (template ok, no verdict): " + "; ".join(notes_alias[:8]))
     if lookup_miss:
@@ -681,7 +845,10 @@ def run(tier, args):
         "distinct_nontrivial": len(distinct),
         "rule": "one evaluation = one a64::Assembler::emit() call; distinct = distinct (database record, variant class) pairs that AsmJit accepted and "
                 "for which BOTH llvm-mc produced the same bytes from this module's own text AND the record's bit template (fixed bits, register fields, "
-                "decoded immediates) matched; MOV sequences count when the interpretation of LLVM's disassembly yields the requested value",
+                "decoded immediates) matched; MOV sequences count when the interpretation of LLVM's disassembly yields the requested value. new_dimensions counts, per "
+                "dimension added in round 11 (immediates >= 2^32, modified immediates, shape-level negatives, arrangement x shift limit, every system register / operation name), "
+                "the cases, those refused as unencodable and those accepted and verified; operand_builder_twins_compared = operands built a second time through the public "
+                "builders of a64operand.h and compared bit for bit",
         "samples": samples,
         "database_records": len(recs),
         "records_with_cases": len(set(c["rec"] for c in cases)),
@@ -697,13 +864,26 @@ def run(tier, args):
         "db_template_mismatches": {k: dbfind[k] for k in sorted(dbfind)},
         "db_annotation_mismatches": {k: db_annot[k][:6] for k in sorted(db_annot)},
         "string_to_inst_id_misses": len(lookup_miss),
+        "new_dimensions": {d: {"cases": dim_cases[d], "refused_as_unencodable": dim_refused[d], "accepted_and_verified": dim_verified[d]} for d in NEW_DIMS},
+        "operand_builder_twins_compared": twins,
+        "asmjit_names": len(known),
+        "asmjit_names_with_an_accepted_case": len(known & accepted_names),
+        "asmjit_names_never_accepted": never,
         "exhaustive": False,
     })
     chk.assumptions += [
         "LLVM 14 (llvm-mc) is the independent assembler/disassembler; where it rejects this module's text there is no LLVM verdict (never a violation)",
         "system register / system operation names and numbers are read from asmjit/arm/a64globals.h (db/isa_aarch64.json has no such table); LLVM decides whether name and number agree",
         "nothing is executed on AArch64; MOV immediate sequences are checked by interpreting LLVM's disassembly of each word",
-        "SVE/SME records (811) are outside a64::Assembler; MOPS, vector modified-immediate (movi/mvni/orr/bic #imm) and a few newer operand kinds are not generated (see generator.unsupported)",
+        "SVE/SME records (811) are outside a64::Assembler; MOPS and a few newer operand kinds are not generated (see generator.unsupported)",
+        "movi/mvni/orr/bic (vector, immediate): a two-operand call gives the element value (AsmJit finds imm8 and the shift and documents that it may pick a smaller element size "
+        "for a replicated pattern); it is unencodable iff NO movi/mvni (orr/bic: imm8 << 8k) encoding produces the lane value, by this module's own AdvSIMDExpandImm; an accepted word "
+        "that LLVM encodes differently counts as equivalent only when both words expand to the requested lane value",
+        "shape-level negatives are generated only when no record of the mnemonic has the operand kinds; a register written without its element type counts as the same kind "
+        "(scalar- / arrangement-view dimensions); a fifth or sixth operand that no form has is not judged (a64::Assembler dispatches on the first four)",
+        "a memory operand with a base register holds a 32-bit offset by design (BaseMem::set_offset keeps the low half): offsets beyond 32 bits cannot be expressed and are not a dimension",
+        "11 forms db/isa_aarch64.json lacks or has with wrong operands (fcvtxn/fcvtxn2, fcvtn/fcvtn2, crc32x/crc32cx, frecpx, xpaclri, chkfeat x16, bic/bics/orn/eon Rd, Rn, #imm) are "
+        "appended from the Arm ARM (vlib/isadb.py); every AsmJit instruction name must have at least one accepted case or the run is inconclusive",
         "a lane index of 16 (B lanes, max+1) cannot be represented by a64::Vec's 4-bit element index and is not generated",
     ]
     return chk.finish()
